@@ -59,3 +59,26 @@ Lemma quad_parallelogram_centroid p0 p1 p3 :
   = norm ROps (cross ROps (vsub ROps p1 p0) (vsub ROps p3 p0)).
 Proof. unfold par. quad_closed (2%R). Qed.
 
+
+(* ----------------------- planar-faced (not necessarily affine) elements:
+   linear (tet decomposition) - centroid (face fans) = signed sum of the
+   non-planarity tets of the quadrilateral faces, for ALL coordinates *)
+Definition face_defect (q0 q1 q2 q3 : v3 R) : R :=
+  det3 ROps (vsub ROps q1 q0) (vsub ROps q2 q0) (vsub ROps q3 q0) / 12.
+Lemma hex_linear_centroid_defect p0 p1 p2 p3 p4 p5 p6 p7 :
+  k_element_volumes_hex ROps p0 p1 p2 p3 p4 p5 p6 p7
+  - k_element_volumes_hex_centroid ROps p0 p1 p2 p3 p4 p5 p6 p7
+  = - face_defect p3 p2 p1 p0 + face_defect p5 p4 p0 p1 - face_defect p6 p7 p4 p5
+    + face_defect p2 p3 p7 p6 + face_defect p5 p1 p2 p6 - face_defect p4 p7 p3 p0.
+Proof. intros; destruct_pts; cbv [face_defect]; unfold_all; field. Qed.
+Lemma prism_linear_centroid_defect p0 p1 p2 p3 p4 p5 :
+  k_element_volumes_prism ROps p0 p1 p2 p3 p4 p5
+  - k_element_volumes_prism_centroid ROps p0 p1 p2 p3 p4 p5
+  = - face_defect p2 p5 p3 p0 + face_defect p1 p4 p5 p2 + face_defect p0 p3 p4 p1.
+Proof. intros; destruct_pts; cbv [face_defect]; unfold_all; field. Qed.
+Lemma pyr_linear_centroid_defect p0 p1 p2 p3 p4 :
+  k_element_volumes_pyr ROps p0 p1 p2 p3 p4 - k_element_volumes_pyr_centroid ROps p0 p1 p2 p3 p4
+  = face_defect p1 p0 p3 p2.
+Proof. intros; destruct_pts; cbv [face_defect]; unfold_all; field. Qed.
+Lemma coplanar_defect q0 q1 q2 q3 : coplanar q0 q1 q2 q3 -> face_defect q0 q1 q2 q3 = 0.
+Proof. unfold coplanar, face_defect. intros ->. field. Qed.
